@@ -140,7 +140,30 @@ fn run_native(mode: &str, prog: &str) -> Result<RunOut, String> {
   Ok(parse(&String::from_utf8_lossy(&out.stdout)))
 }
 
+/// A schedule-dependent failure is real even if the same program passes when run again: failures
+/// are remembered per program, so that the shrinker and the final re-run see a consistent verdict
+/// for a program that has failed once (other programs are really executed).
+fn remembered() -> &'static std::sync::Mutex<BTreeMap<String, Violation>> {
+  use std::sync::OnceLock;
+  static M: OnceLock<std::sync::Mutex<BTreeMap<String, Violation>>> = OnceLock::new();
+  M.get_or_init(|| std::sync::Mutex::new(BTreeMap::new()))
+}
+
 pub fn check_native(p: &Prog, rec: &mut Rec) -> Result<(), Violation> {
+  let key = format!("native|{}", p.encode());
+  if let Some(v) = remembered().lock().unwrap().get(&key) {
+    return Err(v.clone());
+  }
+  let r = check_native_once(p, rec);
+  if let Err(v) = &r {
+    if v.check != "harness" {
+      remembered().lock().unwrap().insert(key, v.clone());
+    }
+  }
+  r
+}
+
+fn check_native_once(p: &Prog, rec: &mut Rec) -> Result<(), Violation> {
   rec.eval();
   rec.class(&format!("threads{}", p.threads.len().min(16)));
   if nontrivial(p) {
